@@ -24,8 +24,11 @@ def flavour(o):
 class Mappers:
     """a pair of inverse mappers over the pool (callback style)"""
 
-    def __init__(self, pool):
+    def __init__(self, pool, strict_plain=False):
         self.pool = pool
+        # strict_plain: for documents written by save() - there a string node reaches the mapper only in its dict form together
+        # with a custom data_id and / or a kind.  (A document of the layout written by other means MAY hold {"str": ...} alone.)
+        self.strict_plain = strict_plain
 
     def ser(self, node, data):
         # a user mapper is defined on the nodes of the tree; the invisible system root (its data is the tree's name)
@@ -50,7 +53,7 @@ class Mappers:
         if "str" in data:
             # a string node reaches the mapper only in its dict form, i.e. together with a custom data_id and / or a kind; a
             # plain string entry is the loader's business (a mapper written for the application's objects need not know it)
-            if len(data) == 1:
+            if len(data) == 1 and self.strict_plain:
                 raise ValueError(f"the deserialization mapper was called for a plain string entry: {data}")
             return data["str"]
         if "data" in data:      # to_dict() form of a plain string node
